@@ -75,6 +75,20 @@ structure Payload where
 end envelope
 
 namespace «notation»
+/-- the bytes of a signature envelope (opaque) -/
+structure SigBlob where
+  id : Nat
+  deriving DecidableEq, Repr, Inhabited
+structure VerifierVerifyOptions where
+  ArtifactReference : String
+  SignatureMediaType : String
+  deriving DecidableEq, Repr, Inhabited
+structure VerificationOutcome where
+  id : Nat                       -- which signature this outcome belongs to (opaque otherwise)
+  Error : Option GoLite.Err
+  deriving DecidableEq, Repr, Inhabited
+/-- the sentinel `errDoneVerification` -/
+def errDoneVerification : GoLite.Err := ⟨"errDoneVerification"⟩
 structure ValidationResult where
   «Type» : trustpolicy.ValidationType
   Action : trustpolicy.ValidationAction
